@@ -12,7 +12,7 @@ Import ListNotations.
 Local Open Scope Z_scope.
 Ltac Zify.zify_post_hook ::= Z.div_mod_to_equations.
 
-Ltac go_time := unfold time_Add, time_Sub, time_Before, time_After, time_Unix, time_UnixNano,
+Ltac go_time := unfold time_Add, time_Sub, time_Before, time_After, time_Equal, time_Unix, time_UnixNano,
   time_ns_per_sec, time_min_dur, time_max_dur in *.
 
 (** ** time.go, sessions.go: window, refresh, lifetime cap *)
@@ -29,9 +29,8 @@ Qed.
 Lemma gen_refreshTTL_is_model : forall ttl, is_i64 ttl -> gen_signer_refreshTTL ttl = refresh_ttl ttl.
 Proof.
   intros ttl H. unfold gen_signer_refreshTTL, refresh_ttl.
-  go_cases; [reflexivity|]. go_arith.
-  rewrite go_quot_nonneg by lia. apply wrap_i64_small.
-  unfold is_i64, two63z in *. lia.
+  go_cases; go_arith; try (exfalso; lia); try reflexivity.
+  all: rewrite go_quot_nonneg by lia; apply wrap_i64_small; unfold is_i64, two63z in *; lia.
 Qed.
 
 Lemma gen_NeedRefresh_is_model : forall maxttl left, is_i64 maxttl ->
@@ -46,7 +45,7 @@ Lemma gen_New_expires_is_model : forall maxttl t0 ttl,
   gen_signer_Sessions_New_expires maxttl t0 ttl = t0 + eff_ttl maxttl ttl.
 Proof.
   intros. unfold gen_signer_Sessions_New_expires, eff_ttl. go_time.
-  cbv zeta. rewrite Z.gtb_ltb. go_cases; reflexivity.
+  cbv zeta. go_solve.
 Qed.
 
 (** ** signer.go: Check, CheckHex *)
@@ -63,14 +62,14 @@ Section WithMac.
   Proof.
     intros k bs Hsz. unfold go_sized in Hsz. unfold gen_signer_Signer_Check, check, ck_res, mac_size, hmac_Equal.
     cbv zeta.
-    destruct (Z.ltb_spec (go_len bs) 32) as [Hl|Hl]; unfold go_len in Hl.
-    - destruct (Nat.ltb_spec (length bs) 32); [reflexivity|lia].
-    - destruct (Nat.ltb_spec (length bs) 32); [lia|].
-      rewrite (wrap_i64_small (go_len bs - 32))
-        by (unfold is_i64, two63z, go_len in *; lia).
-      rewrite go_slice_to, go_slice_from by (unfold go_len; lia).
+    assert (Hw : 32 <= go_len bs -> wrap_i64 (go_len bs - 32) = go_len bs - 32)
+      by (intros; apply wrap_i64_small; unfold is_i64, two63z in *; lia).
+    destruct (Nat.ltb_spec (length bs) 32) as [Hn|Hn].
+    - go_cases; go_arith; unfold go_len in *; try (exfalso; lia); reflexivity.
+    - rewrite ?Hw by (unfold go_len; lia).
+      rewrite ?go_slice_to, ?go_slice_from by (unfold go_len; lia).
       replace (Z.to_nat (go_len bs - 32)) with (length bs - 32)%nat by (unfold go_len; lia).
-      go_cases; reflexivity.
+      go_cases; go_arith; unfold go_len in *; try (exfalso; lia); try congruence; reflexivity.
   Qed.
 
   Lemma gen_Signer_CheckHex_is_model : forall k s, go_sized s ->
@@ -81,7 +80,7 @@ Section WithMac.
     rewrite ?str_eqb_beq.
     destruct (hex_decode s) as [bs|] eqn:E; cbn [go_isnil negb]; [|reflexivity].
     rewrite gen_Signer_Check_is_model, str_eqb_beq.
-    - go_cases; reflexivity.
+    - go_solve.
     - apply hex_decode_length in E. unfold go_sized, go_len in *. lia.
   Qed.
 
@@ -131,8 +130,8 @@ Section WithMac.
       change (Z.to_nat 8) with 8%nat.
       rewrite de64_firstn8, le_u64_int64 by exact Hb.
       go_time. unfold clamp_dur, min_dur, max_dur, two63z.
-      cbv zeta. rewrite Z.mul_0_l, Z.add_0_l. cbn [Z.opp Z.sub Z.add Z.pos_sub Pos.pred_double].
-      go_cases; try reflexivity; go_arith; exfalso; lia.
+      cbv zeta. rewrite ?Z.mul_0_l, ?Z.add_0_l. cbn [Z.opp Z.sub Z.add Z.pos_sub Pos.pred_double].
+      go_solve.
   Qed.
 
   (** [s.window] is [NewTimeSigner]'s [|w|]; for [w] = the most negative
@@ -180,7 +179,7 @@ Proof.
     [|unfold unix_in_range, unix_to_internal in *; lia|unfold grace_sec; lia|unfold grace_sec; lia].
   rewrite !before_now_b.
   unfold gen_jwt_CheckTime. go_time. unfold grace_sec, sec_ns, unix_to_internal. cbv zeta.
-  go_cases; cbn [snd jwt_time_err String.eqb Ascii.eqb Bool.eqb]; try reflexivity; go_arith; exfalso; lia.
+  go_cases; cbn [snd jwt_time_err String.eqb Ascii.eqb Bool.eqb]; go_leaf.
 Qed.
 
 (** On success the duration returned is the remaining lifetime. *)
@@ -213,8 +212,8 @@ Proof.
   - assert (E1 : beq_bytes (text (p_code c)) (text claim) = (p_code c =? claim)%N).
     { apply eq_true_iff_eq. rewrite beq_bytes_spec, N.eqb_eq. split; [apply Tinj|congruence]. }
     rewrite E1, Z.gtb_ltb.
-    go_cases; cbn [pc_err_code String.eqb Ascii.eqb Bool.eqb]; try reflexivity; try discriminate.
-  - go_cases; reflexivity.
+    go_cases; cbn [pc_err_code String.eqb Ascii.eqb Bool.eqb]; go_leaf.
+  - go_cases; cbn [pc_err_code String.eqb Ascii.eqb Bool.eqb]; go_leaf.
 Qed.
 
 (** ** Property theorems read over the code *)
